@@ -43,7 +43,7 @@ class Directive:
 
 
 SUB = ("@ret", "@requires", "@ensures", "@closure", "@loop", "@prefix", "@insert_before", "@recommends",
-       "@decreases", "@nested", "@attr", "@closure_types", "@generics")
+       "@decreases", "@nested", "@attr", "@closure_types", "@generics", "@replace", "@loop_begin", "@loop_end")
 
 
 def parse_spec(path: str):
@@ -123,6 +123,10 @@ def parse_spec(path: str):
                     mm = re.match(r'@insert_before\s+"(.*)"\s+(\d+)\s*$', s)
                     if not mm: raise SystemExit(f"{path}:{ln}: bad @insert_before")
                     args = [mm.group(1), mm.group(2)]
+                if kind == "replace":
+                    mm = re.match(r'@replace\s+(E\d+)\s+"(.*)"\s+(\d+)\s*$', s)
+                    if not mm: raise SystemExit(f"{path}:{ln}: bad @replace")
+                    args = [mm.group(1), mm.group(2), mm.group(3)]
                 cl = Clause(kind, label, args, "", ln)
                 cur.clauses.append(cl)
                 continue
@@ -394,15 +398,38 @@ class Gen:
             derives |= set(x.strip() for x in m.group(1).split(","))
         n = d.name
         gen = []
+        # generics: `struct X<T = Empty>` -> impl<T> .. for X<T>
+        gp, ga = "", ""
+        if st[it.kw + 2].text == "<":
+            ge = rs._skip_generics(st, it.kw + 2)
+            params = []
+            depth = 0; cur = []
+            for tk in st[it.kw + 3:ge - 1]:
+                if tk.text == "<": depth += 1
+                if tk.text == ">": depth -= 1
+                if tk.text == "," and depth == 0:
+                    params.append(cur); cur = []
+                else:
+                    cur.append(tk)
+            if cur: params.append(cur)
+            names = []
+            for prm in params:
+                txt = []
+                for tk in prm:
+                    if tk.text == "=": break
+                    txt.append(tk.text)
+                names.append((txt[0], " ".join(txt)))
+            gp = "<" + ", ".join(t for _, t in names) + ">"
+            ga = "<" + ", ".join(nm for nm, _ in names) + ">"
         if d.opts.get("noderive") is None:
             if "Copy" in derives:
-                gen.append(f"impl Copy for {n} {{}}")
-                gen.append(f"impl Clone for {n} {{ #[verifier::external_body] fn clone(&self) -> (r: Self) ensures r == *self {{ unimplemented!() }} }}")
+                gen.append(f"impl{gp} Copy for {n}{ga} {{}}")
+                gen.append(f"impl{gp} Clone for {n}{ga} {{ #[verifier::external_body] fn clone(&self) -> (r: Self) ensures r == *self {{ unimplemented!() }} }}")
             elif "Clone" in derives:
-                gen.append(f"impl Clone for {n} {{ #[verifier::external_body] fn clone(&self) -> (r: Self) ensures r == *self {{ unimplemented!() }} }}")
+                gen.append(f"impl{gp} Clone for {n}{ga} {{ #[verifier::external_body] fn clone(&self) -> (r: Self) ensures r == *self {{ unimplemented!() }} }}")
             if "PartialEq" in derives:
-                gen.append(f"impl PartialEqSpecImpl for {n} {{ open spec fn obeys_eq_spec() -> bool {{ true }} open spec fn eq_spec(&self, o: &{n}) -> bool {{ *self == *o }} }}")
-                gen.append(f"impl PartialEq for {n} {{ #[verifier::external_body] fn eq(&self, o: &{n}) -> (r: bool) {{ unimplemented!() }} }}")
+                gen.append(f"impl{gp} PartialEqSpecImpl for {n}{ga} {{ open spec fn obeys_eq_spec() -> bool {{ true }} open spec fn eq_spec(&self, o: &{n}{ga}) -> bool {{ *self == *o }} }}")
+                gen.append(f"impl{gp} PartialEq for {n}{ga} {{ #[verifier::external_body] fn eq(&self, o: &{n}{ga}) -> (r: bool) {{ unimplemented!() }} }}")
             if "Eq" in derives:
                 gen.append(f"impl Eq for {n} {{}}")
             if "Default" in derives and d.kind == "struct":
@@ -617,6 +644,15 @@ class Gen:
                 sp.insert(st[lp.in_kw].end, ADD("E4", f" {itname}:"))
             sp.insert(st[lp.body_open].start, ADD("E4", f"\n/*@L {lab}*/{c.text.rstrip()}\n/*@E*/\n"))
         for c in cls:
+            if c.kind in ("loop_begin", "loop_end"):
+                k = int(c.args[0])
+                if k < 1 or k > len(loops):
+                    raise AnchorLost(f"{fid}: loop {k} not found ({len(loops)} loops)")
+                lp = loops[k - 1]
+                if c.kind == "loop_begin":
+                    sp.insert(st[lp.body_open].end, ADD("E10", "\n" + c.text.rstrip() + "\n"))
+                else:
+                    sp.insert(st[lp.body_close].start, ADD("E10", "\n" + c.text.rstrip() + "\n"))
             if c.kind == "nested":
                 nit = S.nested_fn(it, c.args[0])
                 nfp = rs.parse_fn(st, nit)
@@ -632,6 +668,24 @@ class Gen:
             if c.kind == "prefix":
                 txt = c.text
                 sp.insert(st[fp.body_open].end, ADD("E10", "\n" + txt))
+            if c.kind == "replace":
+                # listed call-syntax rewrites (E8 checked arithmetic, E9 dependency inlining, E11 std adapter -> shim fn, E12 eta)
+                rule, anchor, nth = c.args[0], c.args[1], int(c.args[2])
+                if rule not in ("E8", "E9", "E11", "E12"):
+                    raise SystemExit(f"{self.spec_path}:{c.line}: @replace rule {rule} not allowed")
+                atoks = [t.text for t in rs.sig(rs.tokenize(anchor))]
+                hits = []
+                i = fp.body_open + 1
+                while i < fp.body_close - len(atoks) + 1:
+                    if [t.text for t in st[i:i + len(atoks)]] == atoks: hits.append(i)
+                    i += 1
+                if nth < 1 or nth > len(hits):
+                    raise AnchorLost(f"{fid}: @replace {rule} anchor {anchor!r} #{nth}: {len(hits)} hits")
+                a, b = st[hits[nth - 1]].start, st[hits[nth - 1] + len(atoks) - 1].end
+                # drop closure/other splices inside the replaced span
+                sp.ops = [o for o in sp.ops if not (a <= o[0] and o[1] <= b)]
+                sp.replace(a, b, REP(rule, src[a:b], c.text.strip()))
+                self.rewrites.append({"fn": fid, "rule": rule, "from": anchor, "to": c.text.strip()})
             if c.kind == "insert_before":
                 anchor, nth = c.args[0], int(c.args[1])
                 atoks = [t.text for t in rs.sig(rs.tokenize(anchor))]
